@@ -58,6 +58,7 @@ type srvRig struct {
 	started   map[int]chan struct{}
 	accepted  int32
 	pooledBad int32
+	pooledReplyBad int32
 }
 
 func (r *srvRig) markInvoked(id int) {
@@ -124,14 +125,20 @@ func pushPayload(id, size int) []byte {
 
 func (s *rigSvc) Pooled(ctx context.Context, a *PArgs, rp *PReply) error {
 	s.r.markInvoked(a.ID)
-	// the argument object must stay ours for the whole call
+	// the argument and the reply object must stay ours for the whole call
+	id := a.ID
+	rp.ID = id
+	rp.Sum = -id
 	for i := 0; i < 3; i++ {
 		if a.Check != a.A*31+a.B {
 			atomic.AddInt32(&s.r.pooledBad, 1)
 		}
+		if rp.ID != id || rp.Sum != -id {
+			atomic.AddInt32(&s.r.pooledReplyBad, 1)
+		}
 		time.Sleep(200 * time.Microsecond)
 	}
-	rp.ID = a.ID
+	rp.ID = id
 	rp.Sum = a.A + a.B
 	if a.Mode == "err" {
 		return errors.New("pooled failed")
